@@ -200,6 +200,14 @@ theorem patOK_cons {pat : Bytes} (h : patOK pat = true) :
       decide_eq_false_iff_not] at h
     exact ⟨c, rest, rfl, h.1.1.1, h.1.1.2, h.1.2, h.2⟩
 
+/-- `parseRuleText` on a rendered text gives back the pattern as written, the joined modifiers and the
+    exception flag. -/
+theorem parseRuleText_render {wl : Bool} {pat : Bytes} {ms : List Mod}
+    (hp : patOK pat = true) (hm : ∀ m ∈ ms, m.valsOK = true) :
+    parseRuleText (render wl pat ms) = .ok (pat, optsText ms, wl) := by
+  obtain ⟨c, rest, rfl, hc1, hc2, hd, hb⟩ := patOK_cons hp
+  exact parseRuleText_joined wl c rest (optsText ms) hc1 hc2 hd hb (optsText_noDollar ms hm)
+
 /-- PARSING A RENDERED TEXT: every modifier field of the parsed rule is the fold of `applyMod` over the
     modifiers as written, with the document-only override of the permitted content types at the end. -/
 theorem parse_render {px : ParseExt} {wl : Bool} {pat : Bytes} {ms : List Mod} {id : Int} {r : NetRule}
